@@ -318,4 +318,8 @@ theorem emit_neg_trunc {i : Nat} (m : Mode) (h1 : 129 ≤ i) (h2 : i < 256) :
   rw [e, hw]
   simpa using emitHex_byte (show (65536 - i) / 256 < 256 by omega) (byteHex ((65536 - i) % 256))
 
+/-- four hex digits of a negative value: the 16-bit two's complement (repair batch B2; `X EQU -5` is listed as `$FFFB`) -/
+theorem numHex_neg_word (i : Nat) (h : Option Nat) : numHex i h true 4 = fmtHex 4 (0x10000 - i) := by
+  simp [numHex]
+
 end CoCo.Asm
